@@ -35,7 +35,12 @@ META = {
                      'constructor-argument typing)'],
     'assumptions': ['unresolved calls (framework objects) are not checked'],
     'decided': ['D1 call conformance on all resolved edges',
-                'D2 proxy binding roles', 'D3 both acquisition paths'],
+                'D2 proxy binding roles', 'D3 both acquisition paths',
+                'D4 the links of the call chain: the clauses of C08 '
+                '(pending-call bookkeeping, reply-value convention), C10 '
+                '(one addressed reply, binding, reply packaging) and C14 '
+                '(true sender, unicast delivery) that a proxy call passes '
+                'through, re-reported here'],
     'undecided': ['end-to-end equality of arguments and results across '
                   'processes and delivery orders (composition of other '
                   'properties)'],
@@ -212,6 +217,8 @@ def run(ctx):
             okr = True
     ctx.ob('C11.D3', gx.qualname, 'returns-interface-list', okr,
            'getInterfacesFromXML must return the handler\'s interface list')
+    composition(ctx)
+    ctx.floor('C11.D4', 60)
     ctx.floor('C11.D1', 150)
     ctx.floor('C11.D2', 7)
     ctx.floor('C11.D3', 3)
@@ -265,3 +272,43 @@ def _appends_are_interfaces(p):
                 if not ok:
                     return False
     return True
+
+
+COMPOSE = {
+    'c08': ('C08.D2', 'C08.D3', 'C08.D4', 'C08.D5', 'C08.D7'),
+    'c10': ('C10.D1', 'C10.D2', 'C10.D3', 'C10.D6', 'C10.D7'),
+    'c14': ('C14.D3', 'C14.D4'),
+}
+
+
+class _Compose:
+    """Run another property's rules and re-report the selected clauses under
+    C11.D4 (the slot keeps the original rule id)."""
+
+    def __init__(self, ctx, wanted):
+        self.ctx = ctx
+        self.prog = ctx.prog
+        self.wanted = wanted
+        self.extra = {}
+        self.tier = ctx.tier
+
+    def ob(self, rule, where, slot, ok, msg, detail=None, nontrivial=True,
+           loc=None):
+        if rule in self.wanted:
+            self.ctx.ob('C11.D4', where, '%s:%s' % (rule, slot), ok,
+                        '[link of the proxy call chain, %s] %s' % (rule, msg),
+                        detail, nontrivial, loc)
+        return ok
+
+    def floor(self, *a):
+        pass
+
+    def advisory(self, *a):
+        pass
+
+
+def composition(ctx):
+    import importlib
+    for modname, wanted in COMPOSE.items():
+        mod = importlib.import_module('txsa.rules.' + modname)
+        mod.run(_Compose(ctx, set(wanted)))
